@@ -270,7 +270,13 @@ class System:
             mc = _call(o, "mean_curve", (), d)
             if not (isinstance(mc, tuple) and mc and mc[0] == "raised") and \
                     not (d != "normal" and zero_in_accepted):
-                c = HvsrCurve(self.freq, list(mc))
+                try:
+                    c = HvsrCurve(self.freq, list(mc))
+                except ValueError as e:     # a mean curve that is not a valid curve (nan / negative values)
+                    ctx.violation(f"C05:mean_curve:{d}:not-a-valid-curve", root, detail=dict(hist=list(hist)),
+                                  observed=str(e), explanation="mean_curve() returned values that are not a valid "
+                                                               "HVSR curve (nan, inf or negative)")
+                    continue
                 c.update_peaks_bounded(search_range_in_hz=h.rng, find_peaks_kwargs=h.kw)
                 got = _call(o, "mean_curve_peak", (), d)
                 want = ("raised", "ValueError") if math.isnan(c.peak_frequency) else \
